@@ -379,8 +379,8 @@ theorem good_map {v : View} {xs : List Int} (h : Good v xs) (wi : Bool) :
 theorem good_filter {v : View} {xs : List Int} (h : Good v xs) :
     Good (mkFilter v) (xs.filter filtP) := by
   unfold mkFilter
-  rw [materialize_good h]
-  exact good_vec _ _
+  rw [iterCheap_good h, materializeLazy_good h]
+  cases isCheap v <;> exact good_vec _ _
 
 /-! #### makeArray -/
 
@@ -472,7 +472,7 @@ theorem rangeDom_mkExt {a b : View} (ha : RangeDom a) (hb : RangeDom b) : RangeD
         · split <;> trivial
 
 theorem rangeDom_mkFilter (v : View) : RangeDom (mkFilter v) := by
-  unfold mkFilter; split <;> trivial
+  unfold mkFilter; split <;> split <;> trivial
 
 theorem rangeDom_makeArray (n : Nat) (hn : n < 2 ^ 31) (triv : Option Int) (v : View)
     (h : mkMakeArray n triv = some v) : RangeDom v := by
